@@ -22,7 +22,7 @@ from __future__ import annotations
 import ast
 import re
 
-from ..core import (AnalysisError, Report, call_name, dotted, enclosing_function, find_class,
+from ..core import (AnalysisError, Report, call_name, dotted, enclosing_class, enclosing_function, find_class,
                     find_func, need, norm, short, ancestors, parent, subst_locals)
 from ..escape import Escapes, Signal
 from ..flow import Flow, MustFacts
@@ -1366,6 +1366,81 @@ def _fails_at_eof(call: ast.Call) -> bool:
     return False
 
 
+def membership_guards(fn: ast.AST):
+    """rejecting membership tests of a function: `if .. E not in S ..: raise / return` -> [(if, compare)]"""
+    out = []
+    for i in ast.walk(fn):
+        if isinstance(i, ast.If) and any(isinstance(b, (ast.Raise, ast.Return)) for b in i.body):
+            for c in ast.walk(i.test):
+                if isinstance(c, ast.Compare) and len(c.ops) == 1 and isinstance(c.ops[0], ast.NotIn):
+                    out.append((i, c))
+    return out
+
+
+def unvalidated_uses(fn: ast.AST, guard: ast.If, cmp_: ast.Compare) -> list[ast.AST]:
+    """The left side of a rejecting membership test is the value that was validated.  When it is a *transform* of
+    a name (`method.lower() not in METHODS`) and the name itself is read after the test - returned, stored,
+    passed on - what goes on is not what was validated: `Direct` passes the test and reaches a consumer that
+    compares case-sensitively.  -> the later reads of the untransformed name (none when the left side is a
+    plain name / attribute / constant, or when every later read applies the same transform, or the name was
+    rebound to the transformed value)."""
+    left = cmp_.left
+    if isinstance(left, (ast.Name, ast.Attribute, ast.Constant)):
+        return []
+    if isinstance(left, ast.Subscript) and isinstance(left.value, (ast.Name, ast.Attribute)):
+        return []
+    want = norm(left)
+    bases = {x.id for x in ast.walk(left) if isinstance(x, ast.Name) and isinstance(x.ctx, ast.Load)}
+    # transforms that cannot change which member of the set the value is do not count (int(x), str(x) of a name are
+    # conversions the caller relies on as well) - only text normalisations are in question
+    if not any(isinstance(x, ast.Call) and isinstance(x.func, ast.Attribute)
+               and x.func.attr in ('lower', 'upper', 'strip', 'lstrip', 'rstrip', 'casefold', 'title', 'capitalize', 'replace')
+               for x in ast.walk(left)):
+        return []
+    end = getattr(guard, 'end_lineno', guard.lineno)
+    covered: set[int] = set()
+    for n in ast.walk(fn):
+        if norm(n) == want:
+            covered |= {id(x) for x in ast.walk(n)}
+    rebound_at: dict[str, int] = {}
+    for a in ast.walk(fn):
+        if isinstance(a, ast.Assign) and len(a.targets) == 1 and isinstance(a.targets[0], ast.Name) \
+                and a.targets[0].id in bases and norm(a.value) == want:
+            rebound_at[a.targets[0].id] = min(rebound_at.get(a.targets[0].id, 10 ** 9), a.lineno)
+    bad = []
+    for x in ast.walk(fn):
+        if isinstance(x, ast.Name) and x.id in bases and isinstance(x.ctx, ast.Load) and x.lineno > end \
+                and id(x) not in covered and x.lineno <= rebound_at.get(x.id, 10 ** 9):
+            par = getattr(x, '_parent', None)
+            if isinstance(par, ast.Compare) and isinstance(par.ops[0], (ast.Is, ast.IsNot)):
+                continue
+            bad.append(x)
+    return bad
+
+
+def r16_17(rep: Report, idx: Index) -> None:
+    """R16.17  what a rejecting membership test validated is what goes on (see unvalidated_uses)."""
+    rid = 'R16.17'
+    for rel in rep.repo.py_files('dashlive'):
+        tree = rep.repo.tree(rel)
+        for fn in [n for n in ast.walk(tree) if isinstance(n, (ast.FunctionDef, ast.AsyncFunctionDef))]:
+            for guard, c in membership_guards(fn):
+                if enclosing_function(guard) is not fn:
+                    continue
+                cl = enclosing_class(fn)
+                construct = f'{rel}::{cl.name + "." if cl else ""}{fn.name}'
+                bad = unvalidated_uses(fn, guard, c)
+                if not bad:
+                    rep.ok(rid, construct, f'{short(c, 50)}')
+                else:
+                    u = bad[0]
+                    rep.fail(rid, construct, f'{short(c, 50)}',
+                             f'the test validates `{norm(c.left)}` but `{u.id}` itself goes on (line {u.lineno}: '
+                             f'`{short(getattr(u, "_parent", u), 60)}`): a value that only passes in its transformed form '
+                             '(another case, surrounding blanks) is accepted here and reaches consumers that compare it as typed - '
+                             'an unknown name then surfaces as an unhandled exception instead of a 4xx', u)
+
+
 def r16_16(rep: Report) -> None:
     """R16.16  BufferedReader.peek() - the reader every media segment request parses through - starts with
     `assert size > 0` (premise, re-read on every run).  A parser that peeks at a payload must therefore do so only
@@ -1804,6 +1879,7 @@ def analyse(rep: Report) -> None:
     rep.rule('R16.13', 'parser loops driven by a 32-bit count from the input consume input that fails at its end', floor=3)
     rep.rule('R16.14', 'attributes read from an object built in the same handler function exist on every path', floor=3)
     rep.rule('R16.16', 'a payload is peeked at only where its length is positive (BufferedReader.peek asserts it)', floor=1)
+    rep.rule('R16.17', 'what a rejecting membership test validated is the value that goes on', floor=20)
     rep.rule('R16.15', 'the invariants that make the range assertions of generate_media_segment unreachable hold (rule of C06)', floor=1)
     idx = Index(rep.repo)
     cg = CallGraph(idx)
@@ -1821,6 +1897,7 @@ def analyse(rep: Report) -> None:
     r16_13(rep, idx)
     r16_14(rep, idx)
     r16_16(rep)
+    r16_17(rep, idx)
     from ..core import lift
     from . import c06 as _c06
 
